@@ -126,7 +126,7 @@ class MLPModel(DiscriminativeModel):
         W2_grad = self.H_.T @ tau_hat_grad  # Shape
         b2_grad = tau_hat_grad.sum(0, keepdims=True)
 
-        backprop_grad = tau_hat_grad @ W2_grad.T
+        backprop_grad = tau_hat_grad @ self.W2_.T
         backprop_grad *= self.H_ > 0
         W1_grad = X.T @ backprop_grad
         b1_grad = backprop_grad.sum(0, keepdims=True)
